@@ -57,7 +57,7 @@ def leak_signature(prop, exc):
 # transport faults
 # --------------------------------------------------------------------------------------
 
-FAULT_KINDS = ('flip', 'set', 'lenfield', 'trunc', 'drop', 'dup', 'swap', 'insert', 'splice')
+FAULT_KINDS = ('flip', 'set', 'lenfield', 'trunc', 'drop', 'dup', 'swap', 'insert', 'splice', 'token')
 
 
 def apply_faults(stream, faults, res=None):
@@ -91,6 +91,10 @@ def apply_faults(stream, faults, res=None):
                 data[at:at + n + m] = data[at + n:at + n + m] + data[at:at + n]
         elif kind == 'insert':
             data[min(at, len(data)):min(at, len(data))] = bytes.fromhex(fault['hex'])
+        elif kind == 'token':
+            # a value of the text grammar replaced by another well-formed token (up to the next delimiter or the end)
+            end = len(data) if fault.get('end') is None else min(len(data), fault['end'])
+            data[min(at, len(data)):end] = bytes.fromhex(fault['hex'])
         else:
             raise core.HarnessError('unknown fault kind %r' % kind)
         if res is not None and bytes(data) != before:
